@@ -4,6 +4,8 @@ pub mod c01;
 pub mod c02;
 pub mod c03;
 pub mod c05;
+pub mod c06;
+pub mod c07;
 pub mod c10;
 pub mod c11;
 pub mod c16;
@@ -25,6 +27,8 @@ pub fn build(id: &str, tier: &str) -> Option<Check> {
         "C02" => c02::build(quick),
         "C03" => c03::build(quick),
         "C05" => c05::build(quick),
+        "C06" => c06::build(quick),
+        "C07" => c07::build(quick),
         "C10" => c10::build(quick),
         "C11" => c11::build(quick),
         "C12" => c12::build(quick),
